@@ -29,6 +29,110 @@ def opFock (s : Sys) (kind : String) (i j : Nat) : Mat :=
   else if kind == "c" || kind == "c1" then opMatrix s.M ⟨true, i⟩
   else matMul (opMatrix s.M ⟨false, i⟩) (opMatrix s.M ⟨true, j⟩)
 
+def scaleM (x : C) (m : Mat) : Mat := m.map fun row => row.map (· * x)
+
+def idxOf (a : Acc) (l : String) (o sp : Nat) : Option Nat := a.idxTable.findIdx? (· == (l, o, sp))
+
+def nOp (a : Acc) (l : String) (o sp : Nat) : Option Mat :=
+  (idxOf a l o sp).map fun i => matMul (opMatrix a.s.M ⟨false, i⟩) (opMatrix a.s.M ⟨true, i⟩)
+
+def cdOp (a : Acc) (l : String) (o sp : Nat) : Option Mat := (idxOf a l o sp).map fun i => opMatrix a.s.M ⟨false, i⟩
+def cOp (a : Acc) (l : String) (o sp : Nat) : Option Mat := (idxOf a l o sp).map fun i => opMatrix a.s.M ⟨true, i⟩
+
+def shapeOf (a : Acc) (l : String) : Nat × Nat := ((a.curSites.find? (·.1 == l)).map (·.2)).getD (0, 0)
+
+def sumM (dim : Nat) (l : List (Option Mat)) : Option Mat :=
+  l.foldlM (fun acc x => x.map (matAdd acc)) (zeros dim dim)
+
+def mulO (x y : Option Mat) : Option Mat := do let a ← x; let b ← y; pure (matMul a b)
+def sclO (c : C) (x : Option Mat) : Option Mat := x.map (scaleM c)
+
+/-- THE DOCUMENTED OPERATOR of a preset call (include/pomerol/LatticePresets.h), written with number and spin operators.
+Spin labels: up = 1, down = 0. -/
+def docMatrix (a : Acc) (cmd : List String) : Option Mat :=
+  let dim := a.s.dim
+  let v (re im : String) : C := parseC re im
+  let up := 1; let dn := 0
+  match cmd with
+  | ["preset", "coulombS", l, ur, ui, er, ei] =>
+    let (no, ns) := shapeOf a l
+    sumM dim ((List.range no).flatMap fun al =>
+      ((List.range ns).flatMap fun s1 => (List.range s1).map fun s2 => sclO (v ur ui) (mulO (nOp a l al s1) (nOp a l al s2)))
+      ++ (List.range ns).map fun s1 => sclO (v er ei) (nOp a l al s1))
+  | ["preset", "level", l, er, ei] =>
+    let (no, ns) := shapeOf a l
+    sumM dim ((List.range no).flatMap fun al => (List.range ns).map fun s1 => sclO (v er ei) (nOp a l al s1))
+  | ["preset", "magnetization", l, mr, mi] =>
+    let (no, _) := shapeOf a l
+    let h := v mr mi * ofR 0.5
+    sumM dim ((List.range no).flatMap fun al => [sclO h (nOp a l al up), sclO (-h) (nOp a l al dn)])
+  | "preset" :: kind :: l :: rest =>
+    if kind == "coulombP" || kind == "coulombP3" then
+      let (U, Up, J, eps) : C × C × C × C :=
+        if kind == "coulombP" then
+          (v (rest.getD 0 "0") (rest.getD 1 "0"), v (rest.getD 2 "0") (rest.getD 3 "0"), v (rest.getD 4 "0") (rest.getD 5 "0"), v (rest.getD 6 "0") (rest.getD 7 "0"))
+        else
+          let U := v (rest.getD 0 "0") (rest.getD 1 "0"); let J := v (rest.getD 2 "0") (rest.getD 3 "0")
+          (U, U - ofR 2.0 * J, J, v (rest.getD 4 "0") (rest.getD 5 "0"))
+      let (no, ns) := shapeOf a l
+      let orbPairs := (List.range no).flatMap fun x => ((List.range no).filter (· != x)).map fun y => (x, y)
+      let spinPairs := (List.range ns).flatMap fun s1 => (List.range s1).map fun s2 => (s1, s2)
+      sumM dim (
+        -- U Σ_{α, σ>σ'} n n
+        ((List.range no).flatMap fun al => spinPairs.map fun (s1, s2) => sclO U (mulO (nOp a l al s1) (nOp a l al s2)))
+        -- U' Σ_{α≠α', σ>σ'} n_{ασ} n_{α'σ'}
+        ++ (orbPairs.flatMap fun (x, y) => spinPairs.map fun (s1, s2) => sclO Up (mulO (nOp a l x s1) (nOp a l y s2)))
+        -- (U'-J)/2 Σ_{α≠α', σ} n_{ασ} n_{α'σ}
+        ++ (orbPairs.flatMap fun (x, y) => (List.range ns).map fun s1 => sclO ((Up - J) * ofR 0.5) (mulO (nOp a l x s1) (nOp a l y s1)))
+        -- -J Σ_{α≠α', σ>σ'} (c†_{ασ} c†_{α'σ'} c_{α'σ} c_{ασ'} + c†_{ασ} c†_{ασ'} c_{α'σ} c_{α'σ'})
+        ++ (orbPairs.flatMap fun (x, y) => spinPairs.flatMap fun (s1, s2) =>
+              [sclO (-J) (mulO (mulO (cdOp a l x s1) (cdOp a l y s2)) (mulO (cOp a l y s1) (cOp a l x s2))),
+               sclO (-J) (mulO (mulO (cdOp a l x s1) (cdOp a l x s2)) (mulO (cOp a l y s1) (cOp a l y s2)))])
+        ++ ((List.range no).flatMap fun al => (List.range ns).map fun s1 => sclO eps (nOp a l al s1)))
+    else if kind == "szsz" || kind == "ss" then
+      let l2 := rest.getD 0 ""
+      let J := v (rest.getD 1 "0") (rest.getD 2 "0")
+      let (no, _) := shapeOf a l
+      let sz (lab : String) (al : Nat) : Option Mat := do
+        let x ← nOp a lab al up; let y ← nOp a lab al dn; pure (scaleM (ofR 0.5) (matSub x y))
+      let sp (lab : String) (al : Nat) : Option Mat := mulO (cdOp a lab al up) (cOp a lab al dn)
+      let sm (lab : String) (al : Nat) : Option Mat := mulO (cdOp a lab al dn) (cOp a lab al up)
+      sumM dim ((List.range no).flatMap fun al =>
+        [sclO J (mulO (sz l al) (sz l2 al))] ++
+        (if kind == "ss" then [sclO (J * ofR 0.5) (mulO (sp l al) (sm l2 al)), sclO (J * ofR 0.5) (mulO (sm l al) (sp l2 al))] else []))
+    else if kind == "hop7" || kind == "hop6" || kind == "hop5" || kind == "hop4" then
+      let l2 := rest.getD 0 ""
+      let t := v (rest.getD 1 "0") (rest.getD 2 "0")
+      let (no, ns) := shapeOf a l
+      let nums := (rest.drop 3).map nat!
+      let quads : List (Nat × Nat × Nat × Nat) :=
+        if kind == "hop7" then [(nums.getD 0 0, nums.getD 1 0, nums.getD 2 0, nums.getD 3 0)]
+        else if kind == "hop6" then [(nums.getD 0 0, nums.getD 1 0, nums.getD 2 0, nums.getD 2 0)]
+        else if kind == "hop5" then (List.range ns).map fun z => (nums.getD 0 0, nums.getD 1 0, z, z)
+        else (List.range ns).flatMap fun z => (List.range no).map fun i => (i, i, z, z)
+      sumM dim (quads.flatMap fun (o1, o2, s1, s2) =>
+        [sclO t (mulO (cdOp a l o1 s1) (cOp a l2 o2 s2)), sclO t.conj (mulO (cdOp a l2 o2 s2) (cOp a l o1 s1))])
+    else none
+  | _ => none
+
+/-- total spin raising operator over all spin-1/2 (site, orbital) pairs -/
+def splusTotal (a : Acc) : Option Mat :=
+  sumM a.s.dim (a.curSites.flatMap fun (l, no, ns) =>
+    if ns == 2 then (List.range no).map fun al => mulO (cdOp a l al 1) (cOp a l al 0) else [])
+
+def mkSites : List String → List (String × Nat × Nat)
+  | l :: o :: sp :: r => (l, nat! o, nat! sp) :: mkSites r
+  | _ => []
+
+def readLTerm (t : List String) : Option LTerm :=
+  match t with
+  | re :: im :: k :: rest =>
+    let k := nat! k
+    let fs := (List.range k).map fun q =>
+      (rest.getD (4 * q) "0" == "1", rest.getD (4 * q + 1) "", nat! (rest.getD (4 * q + 2) "0"), nat! (rest.getD (4 * q + 3) "0"))
+    some ⟨parseC re im, fs⟩
+  | _ => none
+
 def lookupSeen (a : Acc) (k : String) : Option (List C) := (a.seen.find? (·.1 == k)).map (·.2)
 
 def remember (a : Acc) (k : String) (v : List C) : Acc :=
@@ -56,15 +160,76 @@ def runNumeric (lines : List String) : IO Unit := do
     | "c" :: cmd =>
       lastCmd := cmd
       match cmd with
+      | ["note", "quadratic"] => a := { a with quadratic := true }
+      | ["dumplattice"] =>
+        -- the documented-operator check applies when exactly one preset call lies between two dumps
+        let lp := match a.segment with
+          | [c] => if a.dumps ≥ 1 && c.headD "" == "preset" then c else []
+          | _ => []
+        a := { a with prevTerms := a.curTerms, curTerms := [], lastPreset := lp, segment := [], dumps := a.dumps + 1 }
+      | "preset" :: _ => a := { a with segment := a.segment ++ [cmd] }
+      | "term" :: _ => a := { a with segment := a.segment ++ [cmd] }
+      | "tpreset" :: _ => a := { a with segment := a.segment ++ [cmd] }
+      | "site" :: _ => a := { a with segment := a.segment ++ [cmd] }
       | ["dm", b] => a := { a with s := { a.s with beta := fOf b }, cRot := #[] }
       | ["trunc", e] => a := { a with s := { a.s with truncEps := fOf e } }
       | _ => pure ()
-    | ["o", "nidx", n] => a := { a with s := { a.s with M := nat! n, dim := 2 ^ nat! n } }
-    | "o" :: "poly" :: rest => if lastCmd == ["ham"] then a := { a with s := { a.s with ham := readPolyC rest } }
+    | ["o", "nidx", n] => a := { a with s := { a.s with M := nat! n, dim := 2 ^ nat! n }, idxTable := [] }
+    | ["o", "idx", _, l, o, sp, _] => a := { a with idxTable := a.idxTable ++ [(l, nat! o, nat! sp)] }
+    | "o" :: "sites" :: _ :: rest =>
+      a := { a with curSites := mkSites rest }
+    | "o" :: "lterm" :: _ :: rest =>
+      match readLTerm rest with
+      | some t => a := { a with curTerms := a.curTerms ++ [t] }
+      | none => pure ()
+    | "o" :: "poly" :: rest =>
+      if lastCmd == ["ham"] then
+        a := { a with s := { a.s with ham := readPolyC rest } }
+        if a.s.M ≤ 6 && a.idxTable.length == a.s.M && !a.curSites.isEmpty then
+          let Hp := polyMatrix a.s.M a.s.ham
+          a := a.bump "hamiltonians_vs_terms"
+          -- (a) the symbolic Hamiltonian is the sum of the lattice terms read as ordered products of CAR operators
+          match termsMatrix a.s.M a.idxTable a.curTerms with
+          | some Ht =>
+            if maxDiff Hp Ht > 1.0e-12 * (1.0 + maxAbs Ht) then
+              a ← fail a "C04" s!"Hamiltonian differs from the sum of the lattice terms read as operator products (max diff {maxDiff Hp Ht})"
+            if maxDiff Ht (adjoint Ht) > 1.0e-12 * (1.0 + maxAbs Ht) && a.lastPreset.length > 0 && a.prevTerms.length + 0 ≥ 0 then
+              pure ()
+            -- (b) the preset executed between the last two dumps added exactly its documented operator
+            if !a.lastPreset.isEmpty then
+              match termsMatrix a.s.M a.idxTable a.prevTerms, docMatrix a a.lastPreset with
+              | some H0, some D =>
+                a := a.bump "preset_doc_checks"
+                let added := matSub Ht H0
+                if maxDiff added D > 1.0e-12 * (1.0 + maxAbs D) then
+                  a ← fail a "C04" s!"preset '{" ".intercalate (a.lastPreset.take 2)}' added an operator that differs from its documentation by {maxDiff added D}"
+                if maxDiff added (adjoint added) > 1.0e-12 * (1.0 + maxAbs added) then
+                  a ← fail a "C04" s!"preset '{" ".intercalate (a.lastPreset.take 2)}' added a non-Hermitian operator"
+                -- (c) SU(2): Kanamori with U' = U - 2J and the spin-spin exchange commute with S+ (hence with S-)
+                if a.lastPreset.getD 1 "" == "coulombP3" || a.lastPreset.getD 1 "" == "ss" then
+                  match splusTotal a with
+                  | some Sp =>
+                    a := a.bump "su2_checks"
+                    let comm := matSub (matMul added Sp) (matMul Sp added)
+                    if maxAbs comm > 1.0e-12 * (1.0 + maxAbs added) then
+                      a ← fail a "C04" s!"preset '{a.lastPreset.getD 1 ""}' does not commute with the total spin raising operator ({maxAbs comm})"
+                  | none => pure ()
+              | _, _ => pure ()
+          | none => a ← fail a "C04" "a stored lattice term refers to a (site, orbital, spin) that has no index"
     | "o" :: "blk" :: b :: _ :: sts =>
       let arr := a.s.blocks
       let arr := if arr.size ≤ nat! b then arr ++ Array.replicate (nat! b + 1 - arr.size) #[] else arr
       a := { a with s := { a.s with blocks := arr.set! (nat! b) (sts.map nat!).toArray } }
+    | "o" :: "hmat" :: b :: n :: rest =>
+      -- with a single block (symmetries ignored) the block matrix is the full Fock matrix
+      if a.s.blocks.size == 1 && nat! b == 0 && nat! n == a.s.dim && a.s.M ≤ 6 then
+        let Hp := polyMatrix a.s.M a.s.ham
+        let n := nat! n
+        let impl : Mat := (Array.range n).map fun r => (Array.range n).map fun c =>
+          parseC (rest.getD (2 * (r * n + c)) "0") (rest.getD (2 * (r * n + c) + 1) "0")
+        a := a.bump "full_matrices"
+        if maxDiff impl Hp > 1.0e-12 * (1.0 + maxAbs Hp) then
+          a ← fail a "C04" s!"block matrix (symmetries ignored) differs from the Jordan-Wigner matrix of the Hamiltonian by {maxDiff impl Hp}"
     | "o" :: "eig" :: b :: n :: rest =>
       let n := nat! n
       let es := (rest.take n).map fOf
@@ -243,6 +408,18 @@ def runNumeric (lines : List String) : IO Unit := do
           if !closeC v vc (1.0e-12 * (1.0 + tot)) then
             a ← fail a "C01" s!"G_{i}{j}(iw_{n}) from the container ({vc.re},{vc.im}) differs from the stand-alone object ({v.re},{v.im})"
         if i == j && (int! n) ≥ 0 && !(v.im < 0.0) then a ← fail a "C11" s!"Im G_{i}{i}(iw_{n}) = {v.im} is not negative"
+        if a.quadratic then
+          -- free propagator: G(z) = (z - h)^{-1}, h read off the quadratic Hamiltonian
+          let M := s.M
+          let h : Mat := (Array.range M).map fun p => (Array.range M).map fun q =>
+            ((s.ham.find? fun (mo, _) => mo == [⟨false, p⟩, ⟨true, q⟩]).map (·.2)).getD czero
+          let zmh : Mat := (Array.range M).map fun p => (Array.range M).map fun q => (if p == q then z else czero) - mget h p q
+          match cinv zmh with
+          | some g0 =>
+            a := a.bump "free_propagator_checks"
+            if !closeC v (mget g0 (nat! i) (nat! j)) (budget + 1.0e-9 * (1.0 + tot)) then
+              a ← fail a "C12" s!"quadratic model: G_{i}{j}(iw_{n}) = ({v.re},{v.im}) but (z-h)^-1 = ({(mget g0 (nat! i) (nat! j)).re},{(mget g0 (nat! i) (nat! j)).im})"
+          | none => pure ()
     | ["o", "gfz", i, j, zr, zi, r1, i1, _, _] =>
       let s := a.s; let w := specWeights s
       let (a1, ci) := getRot a (nat! i); let (a2, cj) := getRot a1 (nat! j); a := a2
@@ -375,6 +552,10 @@ def runNumeric (lines : List String) : IO Unit := do
       if !closeC v (x - chi0) (1.0e-12 * (1.0 + x.abs + chi0.abs)) then
         a ← fail a "C15" s!"vertex ({i}{j}{k}{l}) at ({n1},{n2},{n3}) = ({v.re},{v.im}) is not chi - chi0 = ({(x - chi0).re},{(x - chi0).im})"
       a := remember a s!"vertex {i} {j} {k} {l} {n1} {n2} {n3}" [v, x, chi0]
+      if a.quadratic then
+        a := a.bump "wick_vertex_checks"
+        if v.abs > 1.0e-7 * (1.0 + x.abs + chi0.abs) then
+          a ← fail a "C12" s!"quadratic model: vertex ({i}{j}{k}{l}) at ({n1},{n2},{n3}) = ({v.re},{v.im}) does not vanish (chi = ({x.re},{x.im}))"
     | "o" :: "retained" :: _ :: flags =>
       let s := a.s
       a := { a with truncated := true, cRot := a.cRot }
